@@ -94,7 +94,9 @@ Inductive wf_wtok : list ascii -> list ascii -> Prop :=
 | WwPrefixed x h hs sfx : is_in x hexbin = true -> forallb is_hexdigit (h :: hs) = true -> In sfx suffixes ->
     wf_wtok ("0"%char :: x :: h :: hs ++ sfx) ("0"%char :: x :: h :: hs)
 | WwDecimalSuffixed d t sfx : is_digit d = true -> forallb is_digit t = true -> Ascii.eqb d "0"%char = false -> In sfx suffixes ->
-    wf_wtok (d :: t ++ sfx) (d :: t).
+    wf_wtok (d :: t ++ sfx) (d :: t)
+| WwOctal c t sfx : is_digit c = true -> forallb is_digit t = true -> In sfx suffixes ->
+    wf_wtok ("0"%char :: c :: t ++ sfx) ("0"%char :: ch "o" :: c :: t).   (* C octal 017 is handed on as 0o17 *)
 
 Lemma hexdigit_not_hexbin_sp : is_hexdigit sp = false. Proof. reflexivity. Qed.
 
@@ -137,10 +139,33 @@ Proof.
     cbn [app]. destruct t' as [|c2 t'']; rewrite ?Hc2, ?Hz; reflexivity.
 Qed.
 
+(* C octal: a number written with a leading zero is handed on in Python's spelling, 0o... *)
+Lemma lex_c_octal c t sfx rest : is_digit c = true -> forallb is_digit t = true -> In sfx suffixes ->
+  lex_number ("0"%char :: c :: t ++ sfx ++ sp :: rest) = Some (str_of ("0"%char :: ch "o" :: c :: t), sp :: rest).
+Proof.
+  intros Hc Ht Hs.
+  assert (Hhex : forallb is_hexdigit (c :: t) = true).
+  { apply (forallb_impl is_digit); [intros y Hy; apply (digit_facts y Hy)|cbn [forallb]; now rewrite Hc]. }
+  unfold lex_number. destruct (digit_facts c Hc) as [_ [Hc2 _]]. rewrite Hc2.
+  change (c :: t ++ sfx ++ sp :: rest) with ((c :: t) ++ sfx ++ sp :: rest).
+  rewrite (span_hex_sfx (c :: t) sfx rest Hhex Hs). rewrite (suffix_consumed sfx rest Hs).
+  cbn [app]. destruct t as [|c2 t']; rewrite ?Hc2; reflexivity.
+Qed.
+
+Lemma octal_step c t sfx : is_digit c = true -> forallb is_digit t = true -> In sfx suffixes -> forall f rest acc,
+  tokenize_go (S (S f)) (("0"%char :: c :: t ++ sfx) ++ sp :: rest) acc = tokenize_go f rest (str_of ("0"%char :: ch "o" :: c :: t) :: acc).
+Proof.
+  intros Hc Ht Hs f rest acc.
+  replace (("0"%char :: c :: t ++ sfx) ++ sp :: rest) with ("0"%char :: c :: t ++ sfx ++ sp :: rest) by (cbn [app]; now rewrite <- app_assoc).
+  cbn [tokenize_go]. replace (is_in "0"%char op_chars) with false by reflexivity. replace (is_digit "0"%char) with true by reflexivity.
+  rewrite (lex_c_octal c t sfx rest Hc Ht Hs). apply skip_blank.
+Qed.
+
+
 Lemma wtoken_step w r : wf_wtok w r -> forall f rest acc,
   tokenize_go (S (S f)) (w ++ sp :: rest) acc = tokenize_go f rest (str_of r :: acc).
 Proof.
-  intros H f rest acc. destruct H as [t Ht|x h hs sfx Hx Hh Hs|d t sfx Hd Ht Hz Hs].
+  intros H f rest acc. destruct H as [t Ht|x h hs sfx Hx Hh Hs|d t sfx Hd Ht Hz Hs|c t sfx Hc Ht Hs]; [| | |apply octal_step; assumption].
   - apply token_step; exact Ht.
   - replace (("0"%char :: x :: h :: hs ++ sfx) ++ sp :: rest) with ("0"%char :: x :: (h :: hs) ++ sfx ++ sp :: rest)
       by (cbn [app]; now rewrite <- app_assoc).
@@ -161,7 +186,7 @@ Proof.
   - inversion Hw as [|? ? Ht Hw']; subst. cbn [fst snd] in Ht.
     unfold render_w in *. cbn [map List.concat fst snd] in *. rewrite <- app_assoc in *. cbn [app] in *.
     rewrite app_length in Hf. cbn [length] in Hf.
-    assert (Hne : w <> []) by (destruct Ht as [t Ht| |]; [destruct Ht|..]; discriminate).
+    assert (Hne : w <> []) by (destruct Ht as [t Ht| | |]; [destruct Ht|..]; discriminate).
     destruct w as [|c w]; [contradiction|]. cbn [length] in Hf.
     destruct f as [|[|f]]; try lia.
     rewrite (wtoken_step (c :: w) r Ht f _ acc). rewrite IH; [|exact Hw'|lia]. cbn [rev map snd]. now rewrite <- app_assoc.
@@ -174,4 +199,11 @@ Proof.
   intros Hw. unfold tokenize.
   assert (E : forall l, chars_of (str_of l) = l) by (induction l as [|c l IH]; [reflexivity|cbn; now rewrite IH]). rewrite E.
   apply (tokenize_go_render_w toks Hw); lia.
+Qed.
+
+(* ... and int(token, 0) reads that spelling in base 8 *)
+Lemma parse_int_octal c t : parse_int (str_of ("0"%char :: ch "o" :: c :: t)) = parse_base 8 (c :: t) 0.
+Proof.
+  unfold parse_int. assert (E : forall l, chars_of (str_of l) = l) by (induction l as [|x l IH]; [reflexivity|cbn; now rewrite IH]).
+  rewrite E. reflexivity.
 Qed.
